@@ -297,6 +297,11 @@ func (ft *FT) instr(ins ssa.Instruction, st *State, guard Term) {
 		switch x.X.Type().Underlying().(type) {
 		case *types.Array:
 			ft.define(x, app("select", ft.val(x.X), ft.val(x.Index)))
+		case *types.Basic:
+			// byte of a string
+			sv, iv := ft.val(x.X), ft.val(x.Index)
+			ft.safety("bounds", x.Pos(), guard, and(app("<=", "0", iv), app("<", iv, app("slen", sv))))
+			ft.define(x, app("sat", sv, iv))
 		default:
 			ft.errf("Index on %s", x.X.Type())
 			ft.defineFresh(x, st, guard)
@@ -400,6 +405,13 @@ func (ft *FT) alloc(x *ssa.Alloc, st *State, guard Term) {
 	ft.define(x, r)
 	l := ft.locOf(x)
 	ft.store(st, l, ft.d.zero(elem))
+	if types.TypeString(elem, nil) == "strings.Builder" {
+		// a fresh builder holds the empty string: trivially safe text
+		if sf := ft.eng.cons.Specs["bsafe"]; sf != nil && sf.Ghost {
+			ft.keySort("G!bsafe", arraySort("Int", "Bool"))
+			ft.set(st, "G!bsafe", app("store", ft.get(st, "G!bsafe"), r, "true"))
+		}
+	}
 }
 
 func (ft *FT) checkDeref(addr ssa.Value, pos token.Pos, guard Term) {
